@@ -14,23 +14,35 @@ import common  # noqa: E402
 def main():
     t = common.Timer()
     rc = 0
-    # every check module may expose gen(): its translator part
+    # every check module may expose gen(): its translator part; and setup():
+    # building its runners / harness binaries (after the Coq build)
     import importlib
     import pkgutil
     import checks
+    mods = []
     for m in sorted(x.name for x in pkgutil.iter_modules(checks.__path__)):
         try:
-            mod = importlib.import_module("checks." + m)
-            if hasattr(mod, "gen"):
+            mods.append(importlib.import_module("checks." + m))
+        except Exception as e:
+            print("setup: import %s: %s" % (m, e), file=sys.stderr)
+    for mod in mods:
+        if hasattr(mod, "gen"):
+            try:
                 mod.gen()
-            if hasattr(mod, "setup"):
-                mod.setup()
-        except Exception as e:  # a broken translator is reported by the check itself
-            print("setup: %s: %s" % (m, e), file=sys.stderr)
+            except Exception as e:  # a broken translator is reported by the check itself
+                print("setup: %s.gen: %s" % (mod.__name__, e), file=sys.stderr)
+    print("setup: translators done after %.1fs" % t.s(), flush=True)
     ok, log = common.coq_make(None, keep_going=True)
     if not ok:
         sys.stderr.write(log[-4000:])
         print("setup: coq build incomplete (checks report per-property)", file=sys.stderr)
+    print("setup: coq build done after %.1fs" % t.s(), flush=True)
+    for mod in mods:
+        if hasattr(mod, "setup"):
+            try:
+                mod.setup()
+            except Exception as e:
+                print("setup: %s.setup: %s" % (mod.__name__, e), file=sys.stderr)
     print("setup done in %.1fs" % t.s())
     return rc
 
